@@ -310,6 +310,14 @@ def _cast_cells(a, vd):
     return a
 
 
+def _trunc_to_int(c):
+    """C-style float -> integer conversion (truncation towards zero) of one cell"""
+    if isinstance(c, float):
+        return int(c)
+    neg = c < 0
+    return sym.sv_ceil(c) if bool(neg) else sym.sv_floor(c)
+
+
 class SymArray(numpy.ndarray):
     __array_priority__ = 1000.0
 
@@ -401,6 +409,15 @@ class SymArray(numpy.ndarray):
             val = _from_nested(val)
         _nd.__setitem__(raw(self), key, val)
         # keep sorts consistent with virtual dtype
+        if self._vd.kind in "iu":
+            sub = _nd.__getitem__(raw(self), key)
+            if isinstance(sub, _nd):
+                for ix in numpy.ndindex(*sub.shape):
+                    c = sub[ix]
+                    if (isinstance(c, SV) and not c.is_int and not c.is_bool) or isinstance(c, float):
+                        sub[ix] = _trunc_to_int(c)
+            elif (isinstance(sub, SV) and not sub.is_int and not sub.is_bool) or isinstance(sub, float):
+                _nd.__setitem__(raw(self), key, _trunc_to_int(sub))
         if self._vd.kind == "f":
             sub = _nd.__getitem__(raw(self), key)
             if isinstance(sub, _nd):
@@ -1843,6 +1860,19 @@ class NumpyProxy:
         if self.empty_marks:
             return self._filled(shape, dtype, UNWRITTEN)
         return self._filled(shape, dtype, self._zero(dtype))
+
+    def repeat(self, a, repeats, axis=None):
+        # arrays built by repeating / tiling values are buffers the code may later write into: engine arrays when enabled
+        r = numpy.repeat(a, repeats, axis=axis)
+        if self.enabled and isinstance(r, _nd) and not isinstance(r, SymArray) and r.dtype != object:
+            return box(r)
+        return r
+
+    def tile(self, a, reps):
+        r = numpy.tile(a, reps)
+        if self.enabled and isinstance(r, _nd) and not isinstance(r, SymArray) and r.dtype != object:
+            return box(r)
+        return r
 
     def zeros(self, shape, dtype=float, order="C", **kw):
         if not self.enabled:
